@@ -396,7 +396,7 @@ mod verif_c15 {
         grouping(true, 1, false, 0);
     }
 
-    // @harness id=C15 tier=quick timeout=1800 mem=10
+    // @harness id=C15 tier=thorough timeout=1800 mem=10
     // @bounds HumanFloatCount grouping with the number rendering replaced by "" + 3 symbolic digits: sign first, separators exactly every third digit from the right, fraction trimmed of trailing zeros
     #[kani::proof]
     #[kani::unwind(15)]
@@ -513,7 +513,7 @@ mod verif_c15 {
         grouping(true, 4, true, 3);
     }
 
-    // @harness id=C15 tier=quick timeout=1800 mem=10
+    // @harness id=C15 tier=thorough timeout=1800 mem=10
     // @bounds HumanFloatCount grouping with the number rendering replaced by "-" + 3 symbolic digits + '.' + 2 symbolic digits: sign first, separators exactly every third digit from the right, fraction trimmed of trailing zeros
     #[kani::proof]
     #[kani::unwind(15)]
